@@ -30,6 +30,7 @@ type fdef struct {
 	Auto string // "" | create | update | create_nano | create_milli | update_milli | create_sec | update_sec
 	Key  bool
 	Emb  bool // member of the embedded struct
+	PEmb bool // member of the struct embedded by pointer (nil pointer: the columns are NULL and stay absent)
 }
 
 type mdef struct {
@@ -37,6 +38,7 @@ type mdef struct {
 	keymode string // auto | string | composite
 	typ     reflect.Type
 	table   string
+	hasPEmb bool
 }
 
 var tcount int32
@@ -132,17 +134,33 @@ func randModel(r *rand.Rand) *mdef {
 		sf = append(sf, reflect.StructField{Name: "Emb", Type: reflect.TypeOf(Inner{}), Tag: `gorm:"embedded;embeddedPrefix:e_"`})
 		m.fields = append(m.fields, fdef{Name: "Emb.P", Col: "e_p", Kind: kindIdx("int64"), Emb: true}, fdef{Name: "Emb.Q", Col: "e_q", Kind: kindIdx("string"), Emb: true})
 	}
+	if r.Intn(2) == 0 {
+		sf = append(sf, reflect.StructField{Name: "PEmb", Type: reflect.TypeOf(&InnerP{}), Tag: `gorm:"embedded;embeddedPrefix:p_"`})
+		m.fields = append(m.fields, fdef{Name: "PEmb.F", Col: "p_f", Kind: kindIdx("float64"), PEmb: true}, fdef{Name: "PEmb.S", Col: "p_s", Kind: kindIdx("string"), PEmb: true},
+			fdef{Name: "PEmb.N", Col: "p_n", Kind: kindIdx("int64"), PEmb: true})
+		m.hasPEmb = true
+	}
 	m.typ = reflect.StructOf(sf)
 	m.table = fmt.Sprintf("rt%d", atomic.AddInt32(&tcount, 1))
 	return m
 }
 
+// getField returns the (possibly nested) field; the zero Value when it lies behind a nil embedded pointer.
 func getField(v reflect.Value, name string) reflect.Value {
 	if i := strings.Index(name, "."); i >= 0 {
-		return v.FieldByName(name[:i]).FieldByName(name[i+1:])
+		fv := v.FieldByName(name[:i])
+		if fv.Kind() == reflect.Ptr {
+			if fv.IsNil() {
+				return reflect.Value{}
+			}
+			fv = fv.Elem()
+		}
+		return fv.FieldByName(name[i+1:])
 	}
 	return v.FieldByName(name)
 }
+
+const absent = "absent"
 
 // dialects -----------------------------------------------------------------------------------
 type noRet struct {
@@ -199,8 +217,16 @@ type rec struct {
 func (m *mdef) newRecord(r *rand.Rand, mk int64, presetKey bool) rec {
 	v := reflect.New(m.typ).Elem()
 	rc := rec{mk: mk, val: v, given: map[string]string{}, zero: map[string]bool{}}
+	nilEmb := m.hasPEmb && r.Intn(2) == 0
+	if m.hasPEmb && !nilEmb {
+		v.FieldByName("PEmb").Set(reflect.ValueOf(&InnerP{}))
+	}
 	for _, f := range m.fields {
 		k := Kinds[f.Kind]
+		if f.PEmb && nilEmb {
+			rc.given[f.Name], rc.zero[f.Name] = absent, false
+			continue
+		}
 		var x interface{}
 		switch {
 		case f.Name == "Mk":
@@ -227,7 +253,12 @@ func (m *mdef) newRecord(r *rand.Rand, mk int64, presetKey bool) rec {
 func (m *mdef) toks(v reflect.Value) map[string]string {
 	out := map[string]string{}
 	for _, f := range m.fields {
-		out[f.Name] = Kinds[f.Kind].Tok(getField(v, f.Name).Interface())
+		fv := getField(v, f.Name)
+		if !fv.IsValid() {
+			out[f.Name] = absent
+			continue
+		}
+		out[f.Name] = Kinds[f.Kind].Tok(fv.Interface())
 	}
 	return out
 }
@@ -249,7 +280,9 @@ func (m *mdef) mapToks(row map[string]interface{}) map[string]string {
 			out[f.Name] = "-"
 			continue
 		}
-		if t, ok := Kinds[f.Kind].MapTok(v); ok {
+		if f.PEmb && v == nil {
+			out[f.Name] = absent // NULL columns of a nil embedded pointer
+		} else if t, ok := Kinds[f.Kind].MapTok(v); ok {
 			out[f.Name] = t
 		} else {
 			out[f.Name] = "-"
@@ -347,7 +380,11 @@ func run(e *env, r *rand.Rand, caseNo int) (hx.M, error) {
 		for i := range recs {
 			mp := map[string]interface{}{}
 			for _, f := range m.fields {
-				v := getField(recs[i].val, f.Name).Interface()
+				fv := getField(recs[i].val, f.Name)
+				if !fv.IsValid() {
+					continue
+				}
+				v := fv.Interface()
 				switch Kinds[f.Kind].Name {
 				case "upperstr", "point", "kvser", "json_map", "json_struct", "gob_struct", "unixtime":
 					recs[i].given[f.Name] = "-"
